@@ -2,16 +2,18 @@
 import json, subprocess, sys, os, glob
 from concurrent.futures import ThreadPoolExecutor
 
+ROOT = os.path.dirname(os.path.dirname(os.path.abspath(__file__)))
+
 def main():
     seeds = [int(a) for a in sys.argv[1:] if a.isdigit()] or [1, 2, 3]
     tier = "thorough" if "thorough" in sys.argv else "quick"
-    man = json.load(open("/verif/MANIFEST.json"))
+    man = json.load(open(os.path.join(ROOT, "MANIFEST.json")))
     ids = [c["property_id"] for c in man["checks"]]
     jobs = [(s, p) for s in seeds for p in ids]
     def one(job):
         s, p = job
         env = dict(os.environ, VERIF_SEED=str(s))
-        r = subprocess.run("cd /verif && ./check %s --tier %s" % (p, tier), shell=True, env=env, stdout=subprocess.PIPE, stderr=subprocess.STDOUT, text=True)
+        r = subprocess.run("cd %s && ./check %s --tier %s" % (ROOT, p, tier), shell=True, env=env, stdout=subprocess.PIPE, stderr=subprocess.STDOUT, text=True)
         v = [l for l in r.stdout.splitlines() if l.startswith("VIOLATION")]
         info = []
         for l in v:
